@@ -112,6 +112,8 @@ impl ConnectionManager {
         // more smeared out over time to avoid spiky load / thundering herd issues where all dial
         // requests happen around the same time.
         let jitter = std::time::Duration::from_millis(1_000).mul_f64(rand::random::<f64>());
+        #[cfg(bmwill_anemo_verif)]
+        let jitter = crate::verif::jitter(&self.endpoint.peer_id()).unwrap_or(jitter);
         let mut interval =
             tokio::time::interval(self.config.connectivity_check_interval() + jitter);
 
